@@ -534,3 +534,64 @@ def rule_ds_running(R, ctx, rid="C09.packed"):
     ret_ok = bool(oks) and all(is_plus1(x[2][0]) for x in oks)
     R.ob(rid, rl, "ds:len-unbias", bool(plus1) and ret_ok,
          "len = read + 1 (%s), ds_curr_val advances by it (%s), and it is what is returned (%s)" % (bool(plus1), bool(plus1), ret_ok))
+
+
+def rule_dict(R, ctx, rid="C09.dict"):
+    """dictionary back-references of the attributed id-map codec."""
+    Y = ctx.yrs
+    R.rule(rid, "R-PROV dictionary ids: in the attributed id-map writer every dictionary (`visited_*` map) assigns a new entry the "
+                "dictionary's own size at that moment — `m.insert(key, m.len())` with the same map on both sides — and writes that "
+                "same number; the reader numbers entries by their order of first appearance (`id >= vec.len()` means a new entry "
+                "follows), so an id taken from another dictionary's counter makes later back-references point at the wrong entry "
+                "or be read as `new entry follows`")
+    fns = [f for p, f in Y.fns.items() if re.search(r"IdMap<A> as yrs::updates::encoder::Encode>::encode$", p) and f.mir]
+    if not fns:
+        raise AnchorLost("<IdMap<A> as Encode>::encode")
+    fn = fns[0]
+    v = FnView(fn)
+    ins = [c for c in fn.calls() if re.search(r"HashMap(<.*>)?::insert$", c.name) and len(c.args) == 3]
+    R.floor(rid, "dictionary insertions in IdMap::encode", len(ins), 2)
+    for cs, site in ordinal_sites(ins):
+        m = mir_root(fn, cs.args[0])
+        d = mir_def(fn, cs.args[2])
+        src = None
+        if d and d[0] == "call" and re.search(r"HashMap(<.*>)?::len$", d[1].name) and d[1].args:
+            src = mir_root(fn, d[1].args[0])
+        ok = src is not None and src == m
+        # the same number is what gets written
+        wrote = False
+        idroot = mir_root(fn, cs.args[2])
+        for c2 in fn.calls():
+            if re.search(r"::write_var$", F.strip_generics(c2.name)) and len(c2.args) == 2:
+                dd = mir_def(fn, c2.args[1])
+                if dd and dd[0] == "stmt" and "cast" in dd[1] and mir_root(fn, dd[1]["cast"]) == idroot:
+                    wrote = True
+                if mir_root(fn, c2.args[1]) == idroot:
+                    wrote = True
+        R.ob(rid, fn, site, ok and wrote,
+             "new entry id = this dictionary's len(), and that id is written" if ok and wrote else
+             "the id stored for a new dictionary entry is %s (from this dictionary's own len(): %s; written: %s)" %
+             (sshow(v.arg(cs, 2, 8), 5), ok, wrote), cs.loc())
+    # reader: a new entry is recognised by id >= len of the matching vector, and pushed onto that same vector
+    dfns = [f for p, f in Y.fns.items() if re.search(r"IdMap<A> as yrs::updates::decoder::Decode>::decode$", p) and f.mir]
+    if dfns:
+        dfn = dfns[0]
+        dv = FnView(dfn)
+        pushes = [c for c in dfn.calls() if re.search(r"Vec(<.*>)?::push$", c.name) and len(c.args) == 2]
+        n = 0
+        for cs, site in ordinal_sites(pushes):
+            vec = mir_root(dfn, cs.args[0])
+            if "visited" not in str(dfn.local_name(vec[1]) if vec[0] == "local" else ""):
+                continue
+            n += 1
+            calls_by_bb = {x.bb: x for x in dfn.calls()}
+            guarded = False
+            for l in dv.guards(cs.bb):
+                t = l.term
+                if t[0] == "bin" and t[1] in ("Ge", "Lt", "Eq", "Gt", "Le"):
+                    for x in walk(t):
+                        if x[0] == "call" and re.search(r"Vec(<.*>)?::len$", x[1]) and len(x) > 3 and x[3] in calls_by_bb and \
+                                mir_root(dfn, calls_by_bb[x[3]].args[0]) == vec:
+                            guarded = True
+            R.ob(rid, dfn, "reader:" + site, guarded, "a new entry is pushed onto the vector whose length recognised it as new: %s" % guarded, cs.loc())
+        R.floor(rid, "dictionary pushes in IdMap::decode", n, 2)
